@@ -363,12 +363,11 @@ def cases(tier, seed):
     add('case_reduce_prod', shape=[1, 5], axis=-1, required=False, timeout=600, max_zeros=3)
     add('case_reduce_prod', shape=[2, 4, 2], axis=1, required=False, timeout=600)
     add('case_kfl', ls=2, dims=3, terms=1, required=False, timeout=600)
-    add('case_kfl', ls=3, dims=2, terms=2, required=False, timeout=600)
+    add('case_kfl', ls=3, dims=2, terms=2, required=False, timeout=200, cap=1500)
     add('case_kernel_grad', layer='lattice', sizes=[3, 3, 2], units=1, required=False, timeout=600)
     add('case_reduce_prod', shape=[3, 3], axis=0, required=False, timeout=600)
     add('case_reduce_prod', shape=[2, 2, 3], axis=-1, required=False, timeout=600)
     add('case_kfl', ls=2, dims=2, terms=3, required=False, timeout=600)
     add('case_kernel_grad', layer='lattice', sizes=[2, 3], units=3, unit=2, required=False, timeout=300)
-    add('case_kernel_grad', layer='pwl', nk=6, units=3, unit=0, required=False, timeout=300)
     add('case_kernel_grad', layer='categorical', buckets=5, units=3, unit=2, required=False)
   return out
